@@ -187,3 +187,33 @@ def temp_targets_all(ctx, content):
             else:
                 i += 1
     return out
+
+
+def dep_targets(ctx, content):
+    """arguments of the real include / after directives of a source, in order (found by the line state machine alone, as
+    temp_targets_all): the files that have to be up to date before the source is processed"""
+    lines = source_lines(ctx, content)
+    out = []
+    i = 0
+    n = len(lines)
+    cur = None
+    while i < n:
+        line = lines[i]
+        if cur is None:
+            c = grammar.classify(ctx, line)
+            i += 1
+            if c is None:
+                continue
+            ws, prefix, ty, arg = c
+            if ty in grammar.MULTILINE and len(prefix) == 0:
+                break                         # the source fails here; nothing after it is reached
+            cur = (ws, prefix, ty, arg)
+            if ty in ('Include', 'After'):
+                out.append(tuple(arg))
+        else:
+            nxt = grammar.continuation(ctx, (cur[0], cur[1], cur[2]), line)
+            if nxt is None:
+                cur = None
+            else:
+                i += 1
+    return out
